@@ -88,7 +88,8 @@ def run(ctx: Ctx):
         rules.rule_callers(ctx, "D3", name, ok, f"{name} may only be called by Station.{'/'.join(wrappers)}")
     # D4 enter call sites, D5 transition data flow and adoption
     rules.rule_enter_sites(ctx, KINDS, "D4")
-    ctx.attempt(rules.rule_enter_installs, ctx, "D4")
+    res_holders = {sc.name for sc in states.state_classes(repo) if rules.released_kinds(sc, KINDS)}
+    ctx.attempt(rules.rule_enter_installs, ctx, "D4", "TS.enter-installs", res_holders)
     # a dropped state matters here only if the call that produced it can take or give back a plug, a queue slot or a stall
     ops = {k for k, (kind, _) in states.RES.items() if kind in KINDS} | {"modify_station", "modify_base"}
     ctx.attempt(rules.rule_state_lineage, ctx, "D2", rules.step_path_funcs(repo), "DU.state-lineage", lambda fn, c: rules.may_reach(repo, fn, c, ops))
